@@ -207,6 +207,19 @@ impl Recorder {
             }
             _ => json!({"present": false}),
         };
+        // the SDK's user-facing quote, for single swaps submitted without an explicit price limit
+        let sdk_user = match (&pre_bank, swaps.first()) {
+            (Some(b), Some(_)) if swaps.len() == 1 && (ix.name == "swap" || ix.name == "swap_v2") && ix.args["limit"] == 0 => {
+                let num = |v: &Value| -> u128 { v.as_str().map(|s| s.parse().unwrap()).unwrap_or_else(|| v.as_u64().unwrap_or(0) as u128) };
+                let names = ix.slot_names();
+                let supplied: Vec<solana_program::pubkey::Pubkey> = names.iter().enumerate().filter(|(_, n)| n.starts_with("tick_array_") || n.starts_with("supplemental_")).map(|(i, _)| ix.metas[i].pubkey).collect();
+                let p = &w.pools[ix.args["pool"].as_str().unwrap_or("")];
+                let (ma, mb) = (w.mints[&p.mint_a].key, w.mints[&p.mint_b].key);
+                let bps = [0u16, 1, 50, 100, 1000, 10000][self.events % 6];
+                crate::sdk::quote_user_level(b, &ix.key("whirlpool"), &ix.key("oracle"), &supplied, &ma, &mb, num(&ix.args["amount"]) as u64, ix.args["exactIn"] == true, ix.args["aToB"] == true, w.now as u64, crate::svm::epoch(), bps)
+            }
+            _ => json!({"present": false}),
+        };
         // ticks whose prices the spec may need
         let mut ticks = Self::ticks_of_state(&proj);
         for key in ["lo", "up", "newLo", "newUp"] {
@@ -243,7 +256,7 @@ impl Recorder {
             "must": must, "now": nu(w.now as u128), "epoch": nu(crate::svm::epoch() as u128), "tag": tag,
             "logs": if ex.ok() { vec![] } else { ex.logs.iter().rev().take(4).rev().cloned().collect::<Vec<_>>() },
             "swaps": swaps, "events": evs, "diff": d, "prices": prices,
-            "dual": dual.unwrap_or(json!({"present": false})), "routing": routing, "sdk": sdk,
+            "dual": dual.unwrap_or(json!({"present": false})), "routing": routing, "sdk": sdk, "sdkUser": sdk_user,
         });
         w.last_proj = proj;
         self.write(&ev);
